@@ -12,6 +12,7 @@ CLAIMED = {
  'C07': ('outline laws with symbolic heading levels: order kept, emitted outline well nested, well-nested input keeps identical levels, '
          'blocks stay under the nearest preceding heading / same list item / quote', '3 C07'),
  'C13': ('offset -> line/column kernels: to_line_range / to_inline_range for every sorted line table and byte range (symbolic 64-bit), line_starts for every line structure with LF / CRLF terminators and symbolic line lengths', '3 C13'),
+ 'C17': ('squash == independent bounded expansion for every reference graph within the bounds and symbolic u8 depth; termination (call-depth bound never hit); CLI rebuild of the squashed tree is faithful', '3 C17'),
  'C20': ('arena representation invariant established by every build within the bounds', '3 C20'),
 }
 NA = {
